@@ -85,6 +85,18 @@ func configure(g *gen) {
 				Value: "%t.1", T: tStrList},
 			{Callee: "$.stableRoutes[]", Value: "(env.stable s %1)", T: T{"opaque", "Option ρ"}},
 		}})
+	// parse_match.go: findAllowedMethods — the other methods under which the path matches.  The Go map used as a set
+	// is the list of its keys; the order in which `range` visits them is the parameter `ord`
+	add(FnSpec{Recv: "Router", Func: "findAllowedMethods", Lean: "Router.findAllowedMethods",
+		Extra:    []string{"{σ ρ π : Type}", "(env : GoRt.QMEnv σ ρ π)", "(anyMethods : List Bytes)", "(ord : List Bytes → List Bytes)", "(s0 : σ)"},
+		Prologue: []string{"let mut s : σ := s0"}, RetExtra: []string{"s"}, RetExtraT: []string{"σ"},
+		Types: map[string]T{"map[string]int": tStrList}, MapOrder: "ord",
+		Exts: []Ext{
+			{Callee: "anyMethods", Value: "anyMethods", T: tStrList},
+			{Callee: "mMap[]=", Stmts: []string{"mMap := GoRt.setInsert mMap %1"}},
+			{Callee: "$.match", Stmts: []string{"let %t := env.match_ s %1 %2", "s := %t.2"},
+				Values: []string{"%t.1.1", "%t.1.2"}, Ts: []T{{"opaque", "Option ρ"}, {"opaque", "Option π"}}},
+		}})
 	// route_cache.go
 	elem := T{"opaque", "Option Nat"} // *list.Element / *cacheNode: nil or the identity of a list element
 	crExts := []Ext{
